@@ -152,5 +152,62 @@ func (w *World) checkC30(certs *scriptedCerts) {
 			}
 		}
 	}
+	// The safety skew is measured, not copied: a short-lived certificate shows how long before
+	// its expiry this server stops serving the cached copy. A certificate with any other remaining
+	// validity must then stop being served from the cache at least as early before its expiry.
+	bind := func(h string) bool {
+		name, target := acmespec.GenerateCustomRecord(h, "acme.example.com", owner.Token.GetToken())
+		w.resolver.mu.Lock()
+		w.resolver.answers[name] = target
+		w.resolver.mu.Unlock()
+		pace()
+		_, err := w.call(owner, 0, "AcmeValidate", &protocol.ValidateRequest{Hostname: h, Proof: w.proof(owner, h, 0)})
+		return err == nil
+	}
+	// servedUntil loads a certificate valid for `valid` into the cache of one server and polls once
+	// per second; it returns how long before NotAfter the cached copy was last served.
+	servedUntil := func(h string, valid time.Duration) (margin time.Duration, ok bool) {
+		certs.validFor = valid
+		pace()
+		resp, err := w.call(owner, via, "GetCertificate", &protocol.KeylessGetCertificateRequest{Hostname: h, Proof: w.proof(owner, h, 0)})
+		if err != nil {
+			return 0, false
+		}
+		first, perr := x509.ParseCertificate(resp.(*protocol.KeylessGetCertificateResponse).GetCertificates()[0])
+		if perr != nil {
+			return 0, false
+		}
+		certs.validFor = 2 * time.Hour // whatever is fetched next is recognisably another certificate
+		lastServed := time.Now()
+		for time.Until(first.NotAfter) > -3*time.Second {
+			simrt.Sleep(time.Second, "h:poll")
+			resp, err := w.call(owner, via, "GetCertificate", &protocol.KeylessGetCertificateRequest{Hostname: h, Proof: w.proof(owner, h, 0)})
+			if err != nil {
+				continue
+			}
+			l, perr := x509.ParseCertificate(resp.(*protocol.KeylessGetCertificateResponse).GetCertificates()[0])
+			if perr != nil {
+				continue
+			}
+			if l.SerialNumber.Cmp(first.SerialNumber) != 0 || !l.NotAfter.Equal(first.NotAfter) {
+				break
+			}
+			lastServed = time.Now()
+		}
+		return first.NotAfter.Sub(lastServed), true
+	}
+	calHost, testHost := "short.customer.org", "probe.customer.org"
+	if bind(calHost) && bind(testHost) {
+		skew, ok := servedUntil(calHost, pick(r, 90*time.Second, 2*time.Minute, 3*time.Minute))
+		if ok {
+			valid := pick(r, 4*time.Minute+50*time.Second, 5*time.Minute+5*time.Second, 5*time.Minute+20*time.Second, 5*time.Minute+40*time.Second, 5*time.Minute+58*time.Second,
+				6*time.Minute+10*time.Second, 7*time.Minute, 12*time.Minute)
+			margin, ok2 := servedUntil(testHost, valid)
+			simrt.Probe("c30-skew-measured")
+			if ok2 && margin < skew-2*time.Second {
+				w.res.Violate("C30", "cached-past-expiry-minus-skew", "a certificate valid for %v when it was loaded was still served from the cache %v before its expiry; a short-lived certificate shows that this server stops %v before expiry (the safety skew)", valid, margin, skew)
+			}
+		}
+	}
 	simrt.Probe("c30-checked")
 }
